@@ -127,6 +127,55 @@ var c14Kind = registerKind("c14", func(in c14In) string {
 				return fmt.Sprintf("%s after SetSecurityLifeCycle(0x%04x) (err=%v) on a claims-set holding 0x%04x the getter gives %d, %v", p, v, serr, prev, got, gerr)
 			}
 		}
+		// the setter / getter pair on objects in OTHER states of their profile
+		// claim: zero values, a constructor-made object that then decoded a
+		// document without (or with a foreign) profile claim, instances of
+		// derived profiles - the lifecycle rule does not depend on any of it
+		others := map[string]psatoken.IClaims{}
+		if p == P1 {
+			others["zero-value P1Claims"] = &psatoken.P1Claims{}
+			others["inherit-p1 instance"] = inheritP1Profile{}.GetClaims()
+			others["ext-p1 instance"] = newExtP1Claims()
+			fp, _ := psatoken.NewClaims(P1Name)
+			type cu interface{ UnmarshalCBOR([]byte) error }
+			_ = fp.(cu).UnmarshalCBOR(icbor.Encode(icbor.Map(icbor.P(icbor.I(-75000), icbor.Tstr("http://example.com/foreign")), icbor.P(icbor.I(-75001), icbor.U(1)))))
+			others["P1 object that decoded a foreign psa-profile"] = fp
+		} else {
+			others["zero-value P2Claims"] = &psatoken.P2Claims{}
+			others["inherit-p2-oid instance"] = inheritP2Profile{}.GetClaims()
+			others["ext-p2 instance"] = newExtP2Claims()
+			np, _ := psatoken.NewClaims(P2Name)
+			_ = json.Unmarshal([]byte(`{"psa-client-id":1}`), np)
+			others["P2 object that decoded a document without eat-profile"] = np
+			np2, _ := psatoken.NewClaims(P2Name)
+			type cu interface{ UnmarshalCBOR([]byte) error }
+			_ = np2.(cu).UnmarshalCBOR([]byte{0xa1, 0x19, 0x09, 0x5a, 0x01})
+			others["P2 object that decoded a token without eat_profile"] = np2
+		}
+		for what, oc := range others {
+			serr := oc.SetSecurityLifeCycle(v)
+			if (serr == nil) != valid {
+				return fmt.Sprintf("%s: SetSecurityLifeCycle(0x%04x) = %v, want valid=%v", what, v, serr, valid)
+			}
+			got, gerr := oc.GetSecurityLifeCycle()
+			if valid && (gerr != nil || got != v) {
+				return fmt.Sprintf("%s: after SetSecurityLifeCycle(0x%04x) the getter gives %d, %v", what, v, got, gerr)
+			}
+			if !valid && gerr == nil {
+				return fmt.Sprintf("%s: rejected setter left a readable lifecycle %d", what, got)
+			}
+		}
+		// ... and the getter of such objects holding the value by a
+		// non-validating route (struct literal with no canonical profile)
+		var bare psatoken.IClaims
+		if p == P1 {
+			bare = &psatoken.P1Claims{SecurityLifeCycle: u16p(v)}
+		} else {
+			bare = &psatoken.P2Claims{SecurityLifeCycle: u16p(v)}
+		}
+		if got, gerr := bare.GetSecurityLifeCycle(); (gerr == nil) != valid || (valid && got != v) {
+			return fmt.Sprintf("%s bare struct literal holding lifecycle 0x%04x: getter = %d, %v; want valid=%v", p, v, got, gerr, valid)
+		}
 		// CBOR decode-and-validate route (token built by the independent encoder)
 		tok := icbor.Encode(m.WireNode())
 		dc, derr := psatoken.DecodeAndValidateClaimsFromCBOR(tok)
@@ -155,7 +204,7 @@ var c14Kind = registerKind("c14", func(in c14In) string {
 })
 
 func TestC14_All(t *testing.T) {
-	st := NewStats("C14", "TestC14_All", "all 65536 lifecycle values, exhaustively, against a table oracle: LifeCycleToState, state name, IsValid, ValidateSecurityLifeCycle, both profiles' setter+getter (on a fresh claims-set and on ones already holding the same / a valid / an invalid value), struct-literal getter+Validate, CBOR decode-and-validate of a token carrying the value (thorough: also the JSON route). Non-trivial = a value other than the 18 the repository's table test pins; distinct = value")
+	st := NewStats("C14", "TestC14_All", "all 65536 lifecycle values, exhaustively, against a table oracle: LifeCycleToState, state name, IsValid, ValidateSecurityLifeCycle, both profiles' setter+getter (on a fresh claims-set and on ones already holding the same / a valid / an invalid value), struct-literal getter+Validate, setter+getter on zero-value objects, on objects that decoded a document without / with a foreign profile claim and on instances of derived profiles, CBOR decode-and-validate of a token carrying the value (thorough: also the JSON route). Non-trivial = a value other than the 18 the repository's table test pins; distinct = value")
 	st.Exhaustive = true
 	defer st.Flush(t)
 	pinned := map[int]bool{}
